@@ -37,7 +37,7 @@ import terms
 
 PID = "C03"
 PROPS = ["PfModel.Props.C03", "PfModel.Props.C03Part", "PfModel.Props.C03Exec", "PfModel.Props.C03Ops", "PfModel.Props.C03Count",
-         "PfModel.Props.C03CountPart", "PfModel.Props.C03Slice"]
+         "PfModel.Props.C03CountPart", "PfModel.Props.C03Slice", "PfModel.Props.C03Deps", "PfModel.Props.C03Valid", "PfModel.Props.C03Align"]
 DRIVER = "C03"
 RULE = ("pipelines from harness/mapgen.py (1-4 functions: element-wise/zip, outer product, partial and full reductions, internal axes, "
         "'... -> v[j]' producers, tuple outputs, plain functions; axis sizes 1-3); per pipeline: for every generation with <= 5 submitted "
